@@ -24,10 +24,10 @@ TEXT = {
          "Trusted: the aliasing/allocating catalogue of NumPy operations, declared frames/owned parameters/fresh callables (listed in evidence), purity => schedule independence (B3). Thread-level races inside NumPy or user functions are not decided.", TF),
  "C11": ("Frame of in-place operations decided statically for all inputs: Array._expr is assigned only in the sanctioned methods, _replace_expr drops every cached derivation unconditionally, expressions never mutate operands, the setitem kernel writes only to a fresh copy. Assignment values, keys and earlier-derived collections are checked on bounded in-place sequences.",
          "Trusted: as C10. where()-based mask assignment and out= ufunc values are bounded only.", TF),
- "C12": ("For the integer/slice core of indexing the deciding step is proof: normalize_slice preserves the selection and yields canonical bounds, check_index refuses exactly the out-of-range integers, posify_index wraps negatives, and _slice_1d's per-block plan (int and slice, both step signs, any chunking incl. zero-length chunks) partitions exactly the selected positions - VCs from the real source discharged for all inputs. Tuple-level normalisation, new_blockdim, integer-list take and .blocks are bounded stand-ins against NumPy.",
+ "C12": ("For the integer/slice core of indexing the deciding step is proof: normalize_slice preserves the selection and yields canonical bounds, check_index refuses exactly the out-of-range integers, posify_index wraps negatives, and _slice_1d's per-block plan (int and slice, both step signs, any chunking incl. zero-length chunks) partitions exactly the selected positions - VCs from the real source discharged for all inputs. new_blockdim's entries are proved to be the per-piece selection counts in output order. Tuple-level normalisation, integer-list take, vindex points and .blocks are bounded stand-ins against NumPy.",
          BASE + "vindex, boolean dask masks and integer dask-array indices are not decided.", T),
- "C13": ("Verification conditions are generated on every run from the real source of the slice-algebra helpers (normalize_slice, posify_index, _normalize_slice_for_fusion, fuse_slice, _compose_slices, _compute_sliced_chunks, _slice_1d with full loop invariants for both step signs) against sidecar contracts whose postconditions are the property's own statement, and discharged by SMT for all inputs.",
-         BASE + "new_blockdim (float ceil over sorted dict items) and the list/tuple-walk specialisations of fuse_slice are bounded only.", T),
+ "C13": ("Verification conditions are generated on every run from the real source of the slice-algebra helpers (normalize_slice, posify_index, _normalize_slice_for_fusion, fuse_slice, _compose_slices, _compute_sliced_chunks, _slice_1d with full loop invariants for both step signs, new_blockdim) against sidecar contracts whose postconditions are the property's own statement, and discharged by SMT for all inputs.",
+         BASE + "new_blockdim is proved entry by entry (each chunk size = number of positions its piece selects, in output order; float ceil treated as exact, A3); that the sizes add up to the selection length, and the list/tuple-walk specialisations of fuse_slice, are bounded only.", T),
  "C14": ("Bounded stand-in: x.rechunk(spec) for ints, tuples, dicts, -1, None, 'auto', byte strings, explicit tuples, balance and block_size_limit has the chunks that normalising the spec gives and unchanged values, alone and followed by slices/transposes; every rechunk-related rewrite that fires is validated. The crosswalk and plan contracts are under C15.",
          "Not proved. p2p method and concatenate3 are not covered.", TB),
  "C15": ("divide_to_width is proved from the real source for all inputs (sum preserved, width bound, the code's own assert). Plan-level clauses (finite list of chunkings ending in the new chunking, budget) and the crosswalk are bounded stand-ins; F3 is a recorded known finding.",
